@@ -147,10 +147,27 @@ Proof.
     rewrite Eb in Hbin. rewrite Eb, Hbin. reflexivity.
 Qed.
 
+Section WithBlacklist.
+(** [Arg::blacklist] as a function of (owning command, argument): every theorem holds for every such function *)
+Variable bl : cmd -> arg -> list bytes.
+Local Notation arg_conflicts := (ZshModel.arg_conflicts bl).
+Local Notation opt_short_line := (ZshModel.opt_short_line bl).
+Local Notation opt_long_line := (ZshModel.opt_long_line bl).
+Local Notation opt_lines := (ZshModel.opt_lines bl).
+Local Notation write_opts_of := (ZshModel.write_opts_of bl).
+Local Notation zflag_line := (ZshModel.zflag_line bl).
+Local Notation flag_lines := (ZshModel.flag_lines bl).
+Local Notation write_flags_of := (ZshModel.write_flags_of bl).
+Local Notation get_args_of := (ZshModel.get_args_of bl).
+Local Notation get_subcommands_of := (ZshModel.get_subcommands_of bl).
+Local Notation zsh_pieces := (ZshModel.zsh_pieces bl).
+Local Notation zsh_script := (ZshModel.zsh_script bl).
+Local Notation generate_zsh := (ZshModel.generate_zsh bl).
+
 (** ---- totality ---- *)
 Lemma get_args_of_total c d g : c_bin c <> None -> get_args_of c d g <> None.
 Proof.
-  intros Hb. unfold get_args_of. destruct (has_subcommands c); [|discriminate].
+  intros Hb. unfold ZshModel.get_args_of. destruct (has_subcommands c); [|discriminate].
   destruct (c_bin c); [discriminate|contradiction].
 Qed.
 
@@ -172,7 +189,7 @@ Lemma get_subcommands_of_total : forall f p d pb,
 Proof.
   induction f as [|f IH]; intros p d pb Hb Hl Hdepth.
   - pose proof (depth_pos p). lia.
-  - cbn [get_subcommands_of]. destruct (negb (has_subcommands p)); [discriminate|].
+  - cbn [ZshModel.get_subcommands_of]. destruct (negb (has_subcommands p)); [discriminate|].
     destruct (subcommands_of_linked _ _ Hl Hb) as (l & El & Hl'). rewrite El.
     match goal with |- match map_opt ?F l with _ => _ end <> None => destruct (map_opt_total F l) as [r Er] end.
     { intros [w b] Hin. cbn [fst snd]. destruct (Hl' w b Hin) as (sc & Hsc & -> & Hw).
@@ -210,7 +227,7 @@ Qed.
     generator writes a script: no [expect] fires, the recursion through [parser_of] ends *)
 Theorem zsh_total c d b : c_bin c = Some b -> linked c -> exists s, zsh_script c d = Some s.
 Proof.
-  intros Hb Hl. unfold zsh_script, zsh_pieces. rewrite Hb.
+  intros Hb Hl. unfold ZshModel.zsh_script, ZshModel.zsh_pieces. rewrite Hb.
   destruct (get_args_of c d None) as [ia|] eqn:Ea.
   2:{ exfalso. revert Ea. apply get_args_of_total. rewrite Hb; discriminate. }
   destruct (get_subcommands_of (depth c) c d) as [sc|] eqn:Es.
@@ -222,7 +239,7 @@ Qed.
 
 (** without a bin name on the root the first [expect] fires *)
 Lemma zsh_no_bin c d : c_bin c = None -> zsh_script c d = None.
-Proof. intros Hb. unfold zsh_script, zsh_pieces. rewrite Hb. reflexivity. Qed.
+Proof. intros Hb. unfold ZshModel.zsh_script, ZshModel.zsh_pieces. rewrite Hb. reflexivity. Qed.
 
 Theorem zsh_deterministic c d s1 s2 : zsh_script c d = Some s1 -> zsh_script c d = Some s2 -> s1 = s2.
 Proof. intros H1 H2. rewrite H1 in H2. inversion H2; reflexivity. Qed.
@@ -445,8 +462,8 @@ Lemma zspec_subs_unfold p d :
 Proof.
   destruct p as [n al args subs bin h v s g]. cbn [zspec_subs c_subs c_name]. unfold bin_or_default. cbn [c_bin].
   destruct (is_nil subs); [reflexivity|]. f_equal. f_equal.
-  set (p := mkCmd n al args subs bin h v s g).
-  generalize (cd_subs d). induction subs as [|x t IH] in p |- *; intros dl; [reflexivity|].
+  set (p := mkCmd n al args subs bin h v s g). clearbody p.
+  generalize (cd_subs d). induction subs as [|x t IH]; intros dl; [reflexivity|].
   cbn [zipd flat_map]. unfold arms_of at 1. cbn [fst snd]. f_equal. apply IH.
 Qed.
 
@@ -500,7 +517,7 @@ Theorem get_subcommands_of_spec : forall f p d pb,
 Proof.
   induction f as [|f IH]; intros p d pb Hb Hl Hns Hsn Hdepth.
   - pose proof (depth_pos p). lia.
-  - cbn [get_subcommands_of]. rewrite zspec_subs_unfold. unfold has_subcommands. rewrite Bool.negb_involutive.
+  - cbn [ZshModel.get_subcommands_of]. rewrite zspec_subs_unfold. unfold has_subcommands. rewrite Bool.negb_involutive.
     destruct (is_nil (c_subs p)) eqn:Enil; [reflexivity|].
     rewrite subcommands_exact.
     2:{ intros sc Hin. rewrite (linked_child_bin _ _ _ Hl Hb Hin). discriminate. }
@@ -584,7 +601,7 @@ Lemma args_block_shape c d g :
        In [Zx (lit """:: :_" ++ space_to_dd (bin_or_default c) ++ lit "_commands"" \")] segs /\
        In [Zx (lit """*::: :->" ++ c_name c ++ lit """ \")] segs).
 Proof.
-  intros Hb. unfold args_block, get_args_of, bin_or_default.
+  intros Hb. unfold args_block, ZshModel.get_args_of, bin_or_default.
   assert (Hnil : forall x : list zpiece, x <> [] -> In x (if negb (is_nil x) then [x] else [])).
   { intros [|? ?] H; [contradiction|left; reflexivity]. }
   set (A := if negb (is_nil (write_opts_of c d g)) then [write_opts_of c d g] else []).
@@ -621,7 +638,7 @@ Qed.
 (** options: one spec line per short and per long spelling the accessors return *)
 Lemma opt_lines_nonnil c g p line : In line (opt_lines c g p) -> line <> [].
 Proof.
-  unfold opt_lines. intros H. apply in_app_or in H. destruct H as [H|H].
+  unfold ZshModel.opt_lines. intros H. apply in_app_or in H. destruct H as [H|H].
   - destruct (get_short_and_visible_aliases (fst p)); [|destruct H]. apply in_map_iff in H. destruct H as (s & <- & _). discriminate.
   - destruct (get_long_and_visible_aliases (fst p)); [|destruct H]. apply in_map_iff in H. destruct H as (s & <- & _). discriminate.
 Qed.
@@ -636,10 +653,10 @@ Qed.
 
 Lemma opt_lines_short c g p shorts s :
   get_short_and_visible_aliases (fst p) = Some shorts -> In s shorts -> In (opt_short_line c g p s) (opt_lines c g p).
-Proof. intros E Hin. unfold opt_lines. rewrite E. apply in_or_app. left. apply in_map. exact Hin. Qed.
+Proof. intros E Hin. unfold ZshModel.opt_lines. rewrite E. apply in_or_app. left. apply in_map. exact Hin. Qed.
 Lemma opt_lines_long c g p longs l :
   get_long_and_visible_aliases (fst p) = Some longs -> In l longs -> In (opt_long_line c g p l) (opt_lines c g p).
-Proof. intros E Hin. unfold opt_lines. rewrite E. apply in_or_app. right. apply in_map. exact Hin. Qed.
+Proof. intros E Hin. unfold ZshModel.opt_lines. rewrite E. apply in_or_app. right. apply in_map. exact Hin. Qed.
 
 (** flags: the short, the visible short aliases (when there is a short), the long, the visible aliases (when there is a long) *)
 Definition flag_spellings (a : arg) : list (bytes * bytes) :=
@@ -653,7 +670,7 @@ Definition flag_spellings (a : arg) : list (bytes * bytes) :=
 Lemma flag_lines_spellings c g p :
   flag_lines c g p = map (fun x : bytes * bytes => zflag_line c g p (fst x) (snd x)) (flag_spellings (fst p)).
 Proof.
-  unfold flag_lines, flag_spellings. rewrite map_app. f_equal.
+  unfold ZshModel.flag_lines, flag_spellings. rewrite map_app. f_equal.
   - destruct (a_short (fst p)); [|reflexivity]. cbn [map fst snd]. f_equal.
     destruct (get_visible_short_aliases (fst p)); [|reflexivity]. rewrite map_map. reflexivity.
   - destruct (a_long (fst p)); [|reflexivity]. cbn [map fst snd]. f_equal.
@@ -739,11 +756,11 @@ Proof.
   exists x. split; [|exact Hs].
   pose proof (opt_vc_values (a, ad) val Hm Ev) as Hvc.
   assert (Hx' : In (Zx x) (opt_vc (a, ad))) by (eapply sublist_in; [exact Hvc|right; exact Hx]).
-  unfold opt_lines in Hl. apply in_app_or in Hl. destruct Hl as [Hl|Hl].
+  unfold ZshModel.opt_lines in Hl. apply in_app_or in Hl. destruct Hl as [Hl|Hl].
   - destruct (get_short_and_visible_aliases (fst (a, ad))); [|destruct Hl]. apply in_map_iff in Hl.
-    destruct Hl as (s & <- & _). unfold opt_short_line. apply in_or_app. right. apply in_or_app. left. exact Hx'.
+    destruct Hl as (s & <- & _). unfold ZshModel.opt_short_line. apply in_or_app. right. apply in_or_app. left. exact Hx'.
   - destruct (get_long_and_visible_aliases (fst (a, ad))); [|destruct Hl]. apply in_map_iff in Hl.
-    destruct Hl as (s & <- & _). unfold opt_long_line. apply in_or_app. right. apply in_or_app. left. exact Hx'.
+    destruct Hl as (s & <- & _). unfold ZshModel.opt_long_line. apply in_or_app. right. apply in_or_app. left. exact Hx'.
 Qed.
 
 Theorem positional_line_values card a ad vs pv :
@@ -794,7 +811,7 @@ Theorem zsh_pieces_shape c d b :
     zsh_pieces c d = Some ([Zx (script_head b)] ++ args_block c d None ++ zspec_subs c d
                            ++ [Zx (lf ++ lit "}" ++ lf ++ lf)] ++ details ++ [Zx (script_tail b)]).
 Proof.
-  intros [Hb Hl Hns Hsn]. unfold zsh_pieces. rewrite Hb.
+  intros [Hb Hl Hns Hsn]. unfold ZshModel.zsh_pieces. rewrite Hb.
   rewrite (get_args_of_block c d None) by (rewrite Hb; discriminate).
   rewrite (get_subcommands_of_spec (depth c) c d b Hb Hl Hns Hsn (le_n _)).
   destruct (zsubcommand_details c d) as [de|] eqn:Ed.
@@ -907,7 +924,7 @@ Theorem zsh_script_path c d b ws n nd par :
     sublist (zrender ([Zx (lit "(" ++ last ws [] ++ lit ")")] ++ znl ++ args_block n nd (Some par))) s.
 Proof.
   intros Hok Hr. destruct (zsh_pieces_shape c d b Hok) as (de & _ & Ep).
-  unfold zsh_script. rewrite Ep. eexists; split; [reflexivity|]. apply sublist_render.
+  unfold ZshModel.zsh_script. rewrite Ep. eexists; split; [reflexivity|]. apply sublist_render.
   apply sublist_app_l, sublist_app_l, sublist_app_r.
   apply zspec_path; [exact Hr|]. apply linked_bins_built. apply (zo_linked _ _ Hok).
 Qed.
@@ -916,7 +933,7 @@ Theorem zsh_script_root c d b :
   zsh_ok c b -> exists s, zsh_script c d = Some s /\ sublist (zrender (args_block c d None)) s.
 Proof.
   intros Hok. destruct (zsh_pieces_shape c d b Hok) as (de & _ & Ep).
-  unfold zsh_script. rewrite Ep. eexists; split; [reflexivity|]. apply sublist_render.
+  unfold ZshModel.zsh_script. rewrite Ep. eexists; split; [reflexivity|]. apply sublist_render.
   apply sublist_app_l, sublist_app_r, sublist_refl.
 Qed.
 
@@ -973,157 +990,10 @@ Theorem zsh_script_commands c d b n :
 Proof.
   intros Hok Hn. destruct (zsh_pieces_shape c d b Hok) as (de & Ed & Ep).
   destruct (details_cover c d b de n Hok Ed Hn) as (nd & Hs).
-  unfold zsh_script. rewrite Ep. exists (zrender ([Zx (script_head b)] ++ args_block c d None ++ zspec_subs c d
+  unfold ZshModel.zsh_script. rewrite Ep. exists (zrender ([Zx (script_head b)] ++ args_block c d None ++ zspec_subs c d
                            ++ [Zx (lf ++ lit "}" ++ lf ++ lf)] ++ de ++ [Zx (script_tail b)])), nd.
   split; [reflexivity|]. apply sublist_render.
   apply sublist_app_l, sublist_app_l, sublist_app_l, sublist_app_l, sublist_app_r. exact Hs.
-Qed.
-
-(** ---- non-vacuity and class boundaries ---- *)
-Definition zx_opt : arg :=
-  mkArg (lit "color") (Some (lit "c")) (Some (lit "color")) [(lit "k", true); (lit "x", false)] [(lit "colour", true)]
-        ASet None (Some [mkPv (lit "always") false; mkPv (lit "never") false; mkPv (lit "secret") true]) None false false false.
-Definition zx_flag : arg :=
-  mkArg (lit "verbose") (Some (lit "v")) (Some (lit "verbose")) [] [] ACount None None None false false false.
-Definition zx_pos : arg :=
-  mkArg (lit "file") None None [] [] ASet None None (Some HFilePath) false false true.
-Definition zx_leaf (nm : bytes) (bin : bytes) : cmd :=
-  mkCmd nm [] [zx_opt; zx_pos] [] (Some bin) false false sets0 sets0.
-Definition zx_add : cmd :=
-  mkCmd (lit "add") [(lit "a", true); (lit "hidden", false)] [zx_flag]
-        [zx_leaf (lit "x") (lit "p add x")] (Some (lit "p add")) false false sets0 sets0.
-Definition zx_add_all : cmd := zx_leaf (lit "add-all") (lit "p add-all").
-Definition zx_root : cmd := mkCmd (lit "p") [] [zx_flag] [zx_add; zx_add_all] (Some (lit "p")) false false sets0 sets0.
-
-Lemma zx_desc n : desc zx_root n -> n = zx_add \/ n = zx_add_all \/ n = zx_leaf (lit "x") (lit "p add x").
-Proof.
-  intros H. inversion H as [c sc Hin|c sc m Hin H']; subst; cbn in Hin.
-  - destruct Hin as [<-|[<-|[]]]; auto.
-  - destruct Hin as [<-|[<-|[]]].
-    + inversion H' as [c sc Hin|c sc m Hin H'']; subst; cbn in Hin.
-      * destruct Hin as [<-|[]]; auto.
-      * destruct Hin as [<-|[]]. inversion H'' as [c sc Hin|c sc m Hin H3]; subst; cbn in Hin; destruct Hin.
-    + inversion H' as [c sc Hin|c sc m Hin H'']; subst; cbn in Hin; destruct Hin.
-Qed.
-
-(** a tree with the siblings [add] / [add-all] (one name a string prefix of the other), a visible and a hidden alias,
-    two levels, options with aliases and possible values: in the class *)
-Example zsh_ok_example : zsh_ok zx_root (lit "p").
-Proof.
-  split.
-  - reflexivity.
-  - intros p sc Hp Hin. destruct Hp as [->|Hp].
-    + cbn in Hin. destruct Hin as [<-|[<-|[]]]; eexists; split; reflexivity.
-    + destruct (zx_desc _ Hp) as [-> | [-> | -> ]]; cbn in Hin.
-      * destruct Hin as [<-|[]]. eexists; split; reflexivity.
-      * destruct Hin.
-      * destruct Hin.
-  - intros n Hn. destruct (zx_desc _ Hn) as [-> | [-> | -> ]]; cbn; intros H;
-      repeat (destruct H as [H|H]; [discriminate|]); exact H.
-  - intros p Hp. destruct Hp as [->|Hp]; [|destruct (zx_desc _ Hp) as [-> | [-> | -> ]]]; cbn;
-      repeat constructor; cbn; intuition discriminate.
-Qed.
-
-(** a decidable test for "is a contiguous part of" (used for the refutation witnesses) *)
-Fixpoint binfix (a l : bytes) : bool :=
-  starts_with l a || match l with [] => false | _ :: t => binfix a t end.
-Lemma binfix_complete a l : sublist a l -> binfix a l = true.
-Proof.
-  intros (pre & post & ->). induction pre as [|x pre IH].
-  - cbn [app]. destruct (a ++ post) eqn:E; cbn [binfix]; rewrite <- E, starts_with_app; reflexivity.
-  - cbn [app binfix]. rewrite IH. apply Bool.orb_true_r.
-Qed.
-
-(** class boundary = finding [zsh-optional-value]: an option with [num_args(0..=1)] gets its value spec
-    [min_values()] = 0 times; its possible value [zz] is nowhere in the file *)
-Definition zr_optional : arg :=
-  mkArg (lit "o") None (Some (lit "opt")) [] [] ASet (Some (0, 1)) (Some [mkPv (lit "zz") false]) None false false false.
-Lemma zsh_optional_value_refuted :
-  exists c d b s a vs pv, zsh_ok c b /\ zsh_script c d = Some s /\ In a (c_args c) /\ a_is_positional a = false /\
-    possible_values a = Some vs /\ In pv vs /\ pv_hide pv = false /\ a_min_values a = 0 /\
-    ~ sublist (pv_name pv) s.
-Proof.
-  set (c := mkCmd (lit "p") [] [zr_optional] [] (Some (lit "p")) false false sets0 sets0).
-  exists c, cd0, (lit "p"). destruct (zsh_script c cd0) as [s|] eqn:E; [|vm_compute in E; discriminate].
-  exists s, zr_optional, [mkPv (lit "zz") false], (mkPv (lit "zz") false).
-  split.
-  { split; [reflexivity| | |].
-    - intros p sc [->|Hp] Hin; [destruct Hin|]. inversion Hp as [? ? H|? ? ? H]; destruct H.
-    - intros n Hn. inversion Hn as [? ? H|? ? ? H]; destruct H.
-    - intros p [->|Hp]; [constructor|]. inversion Hp as [? ? H|? ? ? H]; destruct H. }
-  split; [reflexivity|]. split; [left; reflexivity|]. split; [reflexivity|]. split; [reflexivity|].
-  split; [left; reflexivity|]. split; [reflexivity|]. split; [reflexivity|].
-  intros Hs. apply binfix_complete in Hs. vm_compute in E. inversion E; subst s. vm_compute in Hs. discriminate.
-Qed.
-
-(** class boundary = finding [alias-without-primary]: a visible short alias of an option that has no short is
-    nowhere in the file *)
-Definition zr_alias_only : arg :=
-  mkArg (lit "o") None (Some (lit "opt")) [(lit "x", true)] [] ASet None None None false false false.
-Lemma zsh_alias_without_primary_refuted :
-  exists c d b s a, zsh_ok c b /\ zsh_script c d = Some s /\ In a (c_args c) /\ In (lit "x", true) (a_short_aliases a) /\
-    ~ sublist (lit "-x") s.
-Proof.
-  set (c := mkCmd (lit "p") [] [zr_alias_only] [] (Some (lit "p")) false false sets0 sets0).
-  exists c, cd0, (lit "p"). destruct (zsh_script c cd0) as [s|] eqn:E; [|vm_compute in E; discriminate].
-  exists s, zr_alias_only.
-  split.
-  { split; [reflexivity| | |].
-    - intros p sc [->|Hp] Hin; [destruct Hin|]. inversion Hp as [? ? H|? ? ? H]; destruct H.
-    - intros n Hn. inversion Hn as [? ? H|? ? ? H]; destruct H.
-    - intros p [->|Hp]; [constructor|]. inversion Hp as [? ? H|? ? ? H]; destruct H. }
-  split; [reflexivity|]. split; [left; reflexivity|]. split; [left; reflexivity|].
-  intros Hs. apply binfix_complete in Hs. vm_compute in E. inversion E; subst s. vm_compute in Hs. discriminate.
-Qed.
-
-(** class boundary of [parser_of_exact]: a subcommand NAME with a space.  [a b] next to [a] -> [b]: both have the bin
-    name [p a b]; the lookup returns the first in pre-order, so the arm [(a b)] carries the block of [b] and the
-    flag [-x] of [a b] is nowhere in the file (same file from the real generator) *)
-Definition zs_flag (id s : bytes) : arg := mkArg id (Some s) None [] [] ASetTrue None None None false false false.
-Definition zs_b : cmd := mkCmd (lit "b") [] [zs_flag (lit "f2") (lit "y")] [] (Some (lit "p a b")) false false sets0 sets0.
-Definition zs_a : cmd := mkCmd (lit "a") [] [] [zs_b] (Some (lit "p a")) false false sets0 sets0.
-Definition zs_ab : cmd := mkCmd (lit "a b") [] [zs_flag (lit "f1") (lit "x")] [] (Some (lit "p a b")) false false sets0 sets0.
-Definition zs_root : cmd := mkCmd (lit "p") [] [] [zs_a; zs_ab] (Some (lit "p")) false false sets0 sets0.
-Lemma zsh_space_in_name_refuted :
-  linked zs_root /\ sibling_names zs_root /\ ~ nospace zs_root /\ desc zs_root zs_ab /\
-  parser_of zs_root (bin_or_default zs_ab) = Some zs_b /\
-  exists s, zsh_script zs_root cd0 = Some s /\ ~ sublist (lit "-x[") s.
-Proof.
-  assert (Hdesc : forall n, desc zs_root n -> n = zs_a \/ n = zs_ab \/ n = zs_b).
-  { intros n H. inversion H as [c sc Hin|c sc m Hin H']; subst; cbn in Hin.
-    - destruct Hin as [<-|[<-|[]]]; auto.
-    - destruct Hin as [<-|[<-|[]]].
-      + inversion H' as [c sc Hin|c sc m Hin H'']; subst; cbn in Hin.
-        * destruct Hin as [<-|[]]; auto.
-        * destruct Hin as [<-|[]]. inversion H'' as [c sc Hin|c sc m Hin H3]; subst; cbn in Hin; destruct Hin.
-      + inversion H' as [c sc Hin|c sc m Hin H'']; subst; cbn in Hin; destruct Hin. }
-  split; [|split; [|split; [|split; [|split]]]].
-  - intros p sc [->|Hp] Hin.
-    + cbn in Hin. destruct Hin as [<-|[<-|[]]]; eexists; split; reflexivity.
-    + destruct (Hdesc _ Hp) as [-> | [-> | -> ]]; cbn in Hin; try (destruct Hin; fail).
-      destruct Hin as [<-|[]]. eexists; split; reflexivity.
-  - intros p [->|Hp]; [|destruct (Hdesc _ Hp) as [-> | [-> | -> ]]]; cbn; repeat constructor; cbn; intuition discriminate.
-  - intros H. apply (H zs_ab); [apply desc_child; right; left; reflexivity|]. cbn. auto.
-  - apply desc_child. right; left; reflexivity.
-  - reflexivity.
-  - destruct (zsh_script zs_root cd0) as [s|] eqn:E; [|vm_compute in E; discriminate].
-    exists s. split; [reflexivity|]. intros Hs. apply binfix_complete in Hs.
-    vm_compute in E. inversion E; subst s. vm_compute in Hs. discriminate.
-Qed.
-
-(** the example tree: both files exist, the [add-all] arm carries the block of [add-all] (not that of [add]) *)
-Example zsh_example_paths :
-  exists s, zsh_script zx_root cd0 = Some s /\
-    sublist (zrender ([Zx (lit "(add-all)")] ++ znl ++ args_block zx_add_all cd0 (Some zx_root))) s /\
-    sublist (zrender ([Zx (lit "(x)")] ++ znl ++ args_block (zx_leaf (lit "x") (lit "p add x")) cd0 (Some zx_add))) s.
-Proof.
-  destruct (zsh_script_path zx_root cd0 (lit "p") [lit "add-all"] zx_add_all cd0 zx_root zsh_ok_example) as (s & Es & H1).
-  { apply dreach_one; [right; left; reflexivity|left; reflexivity]. }
-  destruct (zsh_script_path zx_root cd0 (lit "p") [lit "a"; lit "x"] (zx_leaf (lit "x") (lit "p add x")) cd0 zx_add zsh_ok_example)
-    as (s' & Es' & H2).
-  { eapply dreach_cons; [left; reflexivity|right; left; reflexivity|].
-    apply dreach_one; [left; reflexivity|left; reflexivity]. }
-  rewrite Es in Es'. inversion Es'; subst s'. exists s. split; [exact Es|]. split; [exact H1|exact H2].
 Qed.
 
 (** what the accessors return: the primary spelling and every visible alias -- of an argument that HAS the primary *)
@@ -1188,3 +1058,165 @@ Theorem option_spellings_complete a :
   (forall s, a_long a = Some s -> exists l, get_long_and_visible_aliases a = Some l /\ In s l /\
                                             forall x, In (x, true) (a_aliases a) -> In x l).
 Proof. split; [exact (shorts_list_complete a)|exact (longs_list_complete a)]. Qed.
+
+(** the exclusion list of a non-global argument: the spellings (short, then long) of the arguments its blacklist names,
+    in the order of the blacklist; nothing when the blacklist names none *)
+Theorem conflicts_list c a g :
+  a_global a = false ->
+  arg_conflicts c a g =
+  (if is_nil (filter_map (find_arg c) (bl c a)) then []
+   else lit "(" ++ intercalate (lit " ") (push_conflicts (filter_map (find_arg c) (bl c a))) ++ lit ")").
+Proof.
+  intros H. unfold ZshModel.arg_conflicts, get_arg_conflicts_with. rewrite H. destruct g; reflexivity.
+Qed.
+End WithBlacklist.
+
+(** ---- non-vacuity and class boundaries ---- *)
+(** the witnesses carry no conflicts *)
+Definition bl0 : cmd -> arg -> list bytes := fun _ _ => [].
+Definition zx_opt : arg :=
+  mkArg (lit "color") (Some (lit "c")) (Some (lit "color")) [(lit "k", true); (lit "x", false)] [(lit "colour", true)]
+        ASet None (Some [mkPv (lit "always") false; mkPv (lit "never") false; mkPv (lit "secret") true]) None false false false.
+Definition zx_flag : arg :=
+  mkArg (lit "verbose") (Some (lit "v")) (Some (lit "verbose")) [] [] ACount None None None false false false.
+Definition zx_pos : arg :=
+  mkArg (lit "file") None None [] [] ASet None None (Some HFilePath) false false true.
+Definition zx_leaf (nm : bytes) (bin : bytes) : cmd :=
+  mkCmd nm [] [zx_opt; zx_pos] [] (Some bin) false false sets0 sets0.
+Definition zx_add : cmd :=
+  mkCmd (lit "add") [(lit "a", true); (lit "hidden", false)] [zx_flag]
+        [zx_leaf (lit "x") (lit "p add x")] (Some (lit "p add")) false false sets0 sets0.
+Definition zx_add_all : cmd := zx_leaf (lit "add-all") (lit "p add-all").
+Definition zx_root : cmd := mkCmd (lit "p") [] [zx_flag] [zx_add; zx_add_all] (Some (lit "p")) false false sets0 sets0.
+
+Lemma zx_desc n : desc zx_root n -> n = zx_add \/ n = zx_add_all \/ n = zx_leaf (lit "x") (lit "p add x").
+Proof.
+  intros H. inversion H as [c sc Hin|c sc m Hin H']; subst; cbn in Hin.
+  - destruct Hin as [<-|[<-|[]]]; auto.
+  - destruct Hin as [<-|[<-|[]]].
+    + inversion H' as [c sc Hin|c sc m Hin H'']; subst; cbn in Hin.
+      * destruct Hin as [<-|[]]; auto.
+      * destruct Hin as [<-|[]]. inversion H'' as [c sc Hin|c sc m Hin H3]; subst; cbn in Hin; destruct Hin.
+    + inversion H' as [c sc Hin|c sc m Hin H'']; subst; cbn in Hin; destruct Hin.
+Qed.
+
+(** a tree with the siblings [add] / [add-all] (one name a string prefix of the other), a visible and a hidden alias,
+    two levels, options with aliases and possible values: in the class *)
+Example zsh_ok_example : zsh_ok zx_root (lit "p").
+Proof.
+  split.
+  - reflexivity.
+  - intros p sc Hp Hin. destruct Hp as [->|Hp].
+    + cbn in Hin. destruct Hin as [<-|[<-|[]]]; eexists; split; reflexivity.
+    + destruct (zx_desc _ Hp) as [-> | [-> | -> ]]; cbn in Hin.
+      * destruct Hin as [<-|[]]. eexists; split; reflexivity.
+      * destruct Hin.
+      * destruct Hin.
+  - intros n Hn. destruct (zx_desc _ Hn) as [-> | [-> | -> ]]; cbn; intros H;
+      repeat (destruct H as [H|H]; [discriminate|]); exact H.
+  - intros p Hp. destruct Hp as [->|Hp]; [|destruct (zx_desc _ Hp) as [-> | [-> | -> ]]]; cbn;
+      repeat constructor; cbn; intuition discriminate.
+Qed.
+
+(** a decidable test for "is a contiguous part of" (used for the refutation witnesses) *)
+Fixpoint binfix (a l : bytes) : bool :=
+  starts_with l a || match l with [] => false | _ :: t => binfix a t end.
+Lemma binfix_complete a l : sublist a l -> binfix a l = true.
+Proof.
+  intros (pre & post & ->). induction pre as [|x pre IH].
+  - cbn [app]. destruct (a ++ post) eqn:E; cbn [binfix]; rewrite <- E, starts_with_app; reflexivity.
+  - cbn [app binfix]. rewrite IH. apply Bool.orb_true_r.
+Qed.
+
+(** class boundary = finding [zsh-optional-value]: an option with [num_args(0..=1)] gets its value spec
+    [min_values()] = 0 times; its possible value [zz] is nowhere in the file *)
+Definition zr_optional : arg :=
+  mkArg (lit "o") None (Some (lit "opt")) [] [] ASet (Some (0, 1)) (Some [mkPv (lit "zz") false]) None false false false.
+Lemma zsh_optional_value_refuted :
+  exists c d b s a vs pv, zsh_ok c b /\ zsh_script bl0 c d = Some s /\ In a (c_args c) /\ a_is_positional a = false /\
+    possible_values a = Some vs /\ In pv vs /\ pv_hide pv = false /\ a_min_values a = 0 /\
+    ~ sublist (pv_name pv) s.
+Proof.
+  set (c := mkCmd (lit "p") [] [zr_optional] [] (Some (lit "p")) false false sets0 sets0).
+  exists c, cd0, (lit "p"). destruct (zsh_script bl0 c cd0) as [s|] eqn:E; [|vm_compute in E; discriminate].
+  exists s, zr_optional, [mkPv (lit "zz") false], (mkPv (lit "zz") false).
+  split.
+  { split; [reflexivity| | |].
+    - intros p sc [->|Hp] Hin; [destruct Hin|]. inversion Hp as [? ? H|? ? ? H]; destruct H.
+    - intros n Hn. inversion Hn as [? ? H|? ? ? H]; destruct H.
+    - intros p [->|Hp]; [constructor|]. inversion Hp as [? ? H|? ? ? H]; destruct H. }
+  split; [reflexivity|]. split; [left; reflexivity|]. split; [reflexivity|]. split; [reflexivity|].
+  split; [left; reflexivity|]. split; [reflexivity|]. split; [reflexivity|].
+  intros Hs. apply binfix_complete in Hs. vm_compute in E. inversion E; subst s. vm_compute in Hs. discriminate.
+Qed.
+
+(** class boundary = finding [alias-without-primary]: a visible short alias of an option that has no short is
+    nowhere in the file *)
+Definition zr_alias_only : arg :=
+  mkArg (lit "o") None (Some (lit "opt")) [(lit "x", true)] [] ASet None None None false false false.
+Lemma zsh_alias_without_primary_refuted :
+  exists c d b s a, zsh_ok c b /\ zsh_script bl0 c d = Some s /\ In a (c_args c) /\ In (lit "x", true) (a_short_aliases a) /\
+    ~ sublist (lit "-x") s.
+Proof.
+  set (c := mkCmd (lit "p") [] [zr_alias_only] [] (Some (lit "p")) false false sets0 sets0).
+  exists c, cd0, (lit "p"). destruct (zsh_script bl0 c cd0) as [s|] eqn:E; [|vm_compute in E; discriminate].
+  exists s, zr_alias_only.
+  split.
+  { split; [reflexivity| | |].
+    - intros p sc [->|Hp] Hin; [destruct Hin|]. inversion Hp as [? ? H|? ? ? H]; destruct H.
+    - intros n Hn. inversion Hn as [? ? H|? ? ? H]; destruct H.
+    - intros p [->|Hp]; [constructor|]. inversion Hp as [? ? H|? ? ? H]; destruct H. }
+  split; [reflexivity|]. split; [left; reflexivity|]. split; [left; reflexivity|].
+  intros Hs. apply binfix_complete in Hs. vm_compute in E. inversion E; subst s. vm_compute in Hs. discriminate.
+Qed.
+
+(** class boundary of [parser_of_exact]: a subcommand NAME with a space.  [a b] next to [a] -> [b]: both have the bin
+    name [p a b]; the lookup returns the first in pre-order, so the arm [(a b)] carries the block of [b] and the
+    flag [-x] of [a b] is nowhere in the file (same file from the real generator) *)
+Definition zs_flag (id s : bytes) : arg := mkArg id (Some s) None [] [] ASetTrue None None None false false false.
+Definition zs_b : cmd := mkCmd (lit "b") [] [zs_flag (lit "f2") (lit "y")] [] (Some (lit "p a b")) false false sets0 sets0.
+Definition zs_a : cmd := mkCmd (lit "a") [] [] [zs_b] (Some (lit "p a")) false false sets0 sets0.
+Definition zs_ab : cmd := mkCmd (lit "a b") [] [zs_flag (lit "f1") (lit "x")] [] (Some (lit "p a b")) false false sets0 sets0.
+Definition zs_root : cmd := mkCmd (lit "p") [] [] [zs_a; zs_ab] (Some (lit "p")) false false sets0 sets0.
+Lemma zsh_space_in_name_refuted :
+  linked zs_root /\ sibling_names zs_root /\ ~ nospace zs_root /\ desc zs_root zs_ab /\
+  parser_of zs_root (bin_or_default zs_ab) = Some zs_b /\
+  exists s, zsh_script bl0 zs_root cd0 = Some s /\ ~ sublist (lit "-x[") s.
+Proof.
+  assert (Hdesc : forall n, desc zs_root n -> n = zs_a \/ n = zs_ab \/ n = zs_b).
+  { intros n H. inversion H as [c sc Hin|c sc m Hin H']; subst; cbn in Hin.
+    - destruct Hin as [<-|[<-|[]]]; auto.
+    - destruct Hin as [<-|[<-|[]]].
+      + inversion H' as [c sc Hin|c sc m Hin H'']; subst; cbn in Hin.
+        * destruct Hin as [<-|[]]; auto.
+        * destruct Hin as [<-|[]]. inversion H'' as [c sc Hin|c sc m Hin H3]; subst; cbn in Hin; destruct Hin.
+      + inversion H' as [c sc Hin|c sc m Hin H'']; subst; cbn in Hin; destruct Hin. }
+  split; [|split; [|split; [|split; [|split]]]].
+  - intros p sc [->|Hp] Hin.
+    + cbn in Hin. destruct Hin as [<-|[<-|[]]]; eexists; split; reflexivity.
+    + destruct (Hdesc _ Hp) as [-> | [-> | -> ]]; cbn in Hin; try (destruct Hin; fail).
+      destruct Hin as [<-|[]]. eexists; split; reflexivity.
+  - intros p [->|Hp]; [|destruct (Hdesc _ Hp) as [-> | [-> | -> ]]]; cbn; repeat constructor; cbn; intuition discriminate.
+  - intros H. apply (H zs_ab); [apply desc_child; right; left; reflexivity|]. cbn. auto.
+  - apply desc_child. right; left; reflexivity.
+  - reflexivity.
+  - destruct (zsh_script bl0 zs_root cd0) as [s|] eqn:E; [|vm_compute in E; discriminate].
+    exists s. split; [reflexivity|]. intros Hs. apply binfix_complete in Hs.
+    vm_compute in E. inversion E; subst s. vm_compute in Hs. discriminate.
+Qed.
+
+(** the example tree: both files exist, the [add-all] arm carries the block of [add-all] (not that of [add]) *)
+Example zsh_example_paths :
+  exists s, zsh_script bl0 zx_root cd0 = Some s /\
+    sublist (zrender ([Zx (lit "(add-all)")] ++ znl ++ args_block bl0 zx_add_all cd0 (Some zx_root))) s /\
+    sublist (zrender ([Zx (lit "(x)")] ++ znl ++ args_block bl0 (zx_leaf (lit "x") (lit "p add x")) cd0 (Some zx_add))) s.
+Proof.
+  destruct (zsh_script_path bl0 zx_root cd0 (lit "p") [lit "add-all"] zx_add_all cd0 zx_root zsh_ok_example) as (s & Es & H1).
+  { apply dreach_one; [right; left; reflexivity|left; reflexivity]. }
+  destruct (zsh_script_path bl0 zx_root cd0 (lit "p") [lit "a"; lit "x"] (zx_leaf (lit "x") (lit "p add x")) cd0 zx_add zsh_ok_example)
+    as (s' & Es' & H2).
+  { eapply dreach_cons; [left; reflexivity|right; left; reflexivity|].
+    apply dreach_one; [left; reflexivity|left; reflexivity]. }
+  rewrite Es in Es'. inversion Es'; subst s'. exists s. split; [exact Es|]. split; [exact H1|exact H2].
+Qed.
+
